@@ -1026,9 +1026,34 @@ func (vc *VC) goStmt(fx *FuncCtx, fr *Frame, st *State, g *ssa.Go) {
 			fn, _ = f.Fn.(*ssa.Function)
 		}
 	}
+	// ghost: number of goroutines started (in total, and per started function)
+	{
+		kt := vc.reg.get("ghost:spawnedTotal", 0, IntSort, nil)
+		st.heap[kt.Name] = Add(st.heapVar(kt), IntC(1))
+		if fn != nil {
+			kf := vc.reg.get("ghost:spawned:"+fn.Name(), 0, IntSort, nil)
+			st.heap[kf.Name] = Add(st.heapVar(kf), IntC(1))
+		}
+	}
+	// The event counters (values sent, received, goroutines started) count what this function and its synchronous
+	// callees do; what the spawned goroutine sends or receives is not an event of this function.
+	saved := map[string]*Term{}
+	for _, name := range vc.reg.sorted() {
+		if isEventCounter(name) {
+			saved[name] = st.heapVar(vc.reg.m[name])
+		}
+	}
+	defer func() {
+		for name, t := range saved {
+			st.heap[name] = t
+		}
+	}()
 	if fn != nil {
 		if ws := vc.writeSetOf(fn); ws != nil {
 			for _, p := range ws {
+				if isEventCounter(p) {
+					continue
+				}
 				st.havocPrefix(p, "go "+funcDisplayName(fn))
 				vc.noteHavoc(st, p)
 			}
@@ -1036,6 +1061,15 @@ func (vc *VC) goStmt(fx *FuncCtx, fr *Frame, st *State, g *ssa.Go) {
 		}
 	}
 	vc.havocAll(st, "go statement")
+}
+
+func isEventCounter(key string) bool {
+	for _, p := range []string{"ghost:sent", "ghost:last", "ghost:taken", "ghost:spawned"} {
+		if strings.HasPrefix(key, p) {
+			return true
+		}
+	}
+	return false
 }
 
 func (vc *VC) send(fx *FuncCtx, fr *Frame, st *State, s *ssa.Send) {
@@ -1054,12 +1088,34 @@ func (vc *VC) ghostSend(st *State, ct types.Type, ch *Term, v Val, vt types.Type
 	ki := vc.reg.get(key, 1, IntSort, nil)
 	h := st.heapVar(ki)
 	st.heap[key] = Store(h, ch, Add(Select(h, ch), IntC(1)))
+	vc.noteWrite(st, PHeap, key, ch, nil)
 	lk := "ghost:last<" + chanKey(ct) + ">"
 	if s := scalarSort(vt); s != nil {
 		kl := vc.reg.get(lk, 1, s, nil)
 		st.heap[lk] = Store(st.heapVar(kl), ch, st.toTerm(v, vt))
+		st.touchKey(lk) // the value may be a reference allocated just now
+		vc.noteWrite(st, PHeap, lk, ch, nil)
 	} else if _, isStruct := under(vt).(*types.Struct); isStruct && v != nil {
 		st.storeKey(PHeap, lk, ch, nil, vt, v)
+	}
+}
+
+// ghostTake counts the values this function receives from a channel (ghost inbox): "taken<chan type>"[ch] += 1 when
+// `when` holds, and records the last value received (scalar element types: pointers, numbers, strings).
+func (vc *VC) ghostTake(st *State, ct types.Type, ch *Term, v Val, vt types.Type, when *Term) {
+	key := "ghost:taken<" + chanKey(ct) + ">"
+	ki := vc.reg.get(key, 1, IntSort, nil)
+	h := st.heapVar(ki)
+	cur := Select(h, ch)
+	st.heap[key] = Store(h, ch, Ite(when, Add(cur, IntC(1)), cur))
+	vc.noteWrite(st, PHeap, key, ch, nil)
+	if s := scalarSort(vt); s != nil && v != nil {
+		lk := "ghost:lasttaken<" + chanKey(ct) + ">"
+		kl := vc.reg.get(lk, 1, s, nil)
+		hl := st.heapVar(kl)
+		st.heap[lk] = Store(hl, ch, Ite(when, st.toTerm(v, vt), Select(hl, ch)))
+		st.touchKey(lk)
+		vc.noteWrite(st, PHeap, lk, ch, nil)
 	}
 }
 
@@ -1092,6 +1148,7 @@ func (vc *VC) selectStmt(fx *FuncCtx, fr *Frame, st *State, s *ssa.Select) Val {
 			vc.assume(st, f)
 		}
 		vc.recvFacts(fx, st, st.toTerm(vc.val(fx, fr, ss.Chan), ss.Chan.Type()), fv, et, Eq(idx, IntC(int64(i))))
+		vc.ghostTake(st, ss.Chan.Type(), st.toTerm(vc.val(fx, fr, ss.Chan), ss.Chan.Type()), fv, et, Eq(idx, IntC(int64(i))))
 		vs = append(vs, fv)
 	}
 	return &TupleV{Vs: vs}
@@ -1120,6 +1177,7 @@ func (vc *VC) recvFacts(fx *FuncCtx, st *State, ch *Term, v Val, et types.Type, 
 		}
 		cv, err := env.eval(rf.Chan)
 		if err != nil {
+			if os.Getenv("VERIF_DEBUG") != "" { fmt.Fprintln(os.Stderr, "onrecv chan eval:", err) }
 			continue
 		}
 		ct, ok := env.value(cv).(*Term)
@@ -1130,6 +1188,10 @@ func (vc *VC) recvFacts(fx *FuncCtx, st *State, ch *Term, v Val, et types.Type, 
 		if g, err := env.evalBool(rf.Expr); err == nil {
 			vc.assume(st, Implies(when, g))
 			vc.used["environment assumption on received values: "+rf.Src] = true
+		} else if !vc.discovery && vc.dry == 0 && vc.scratch == 0 {
+			// an assumption that cannot be evaluated must not vanish silently
+			o := &Obligation{Name: vc.fnName() + "#onrecv:" + rf.Var, Kind: "stale", PC: True(), Goal: False(), Taint: "onrecv clause cannot be resolved: " + err.Error(), Fn: vc.fnName()}
+			vc.obls = append(vc.obls, o)
 		}
 	}
 }
